@@ -193,6 +193,20 @@ func RunCase(spec CaseSpec) (res CaseResult) {
 			}
 		}
 		res.AppHash = fmt.Sprintf("%x", br.AppHash)
+		for ; g.FastForward > 0 && !c.Dead; g.FastForward-- {
+			if ff := c.NextBlock(BlockPlan{Gap: time.Second}); ff.Err != nil {
+				res.Dead = true
+				res.Death = "fast-forward:" + NormalizeErr(ff.Err.Error())
+				if def.DeathIsViolation {
+					c.Violations = append(c.Violations, Violation{Property: spec.Prop, Monitor: "blockfail", Sig: res.Death, Height: ff.Height, Phase: ff.Phase, Detail: map[string]interface{}{"err": firstLines(ff.Err.Error(), 3)}})
+				}
+			} else {
+				st.Count("fast-forward-blocks")
+			}
+		}
+		if c.Dead {
+			break
+		}
 	}
 	if def.Finish != nil && !c.Dead {
 		def.Finish(c, g, mons)
